@@ -142,7 +142,9 @@ def classify_operand(a, state, ff, optypes, depth=0):
         if isinstance(v, Ref):
             # a slicer copy whose .plate was re-pointed to the current plate
             key = f"{v.name}.plate"
-            if isinstance(v.value, ast.Call) and getattr(v.value.func, 'id', '') == 'deepcopy':
+            if isinstance(v.value, ast.Call) and getattr(v.value.func, 'id', '') in ('deepcopy', 'copy'):
+                # (the slice's plate must be the current plate object itself - not a copy of it: two slices of one
+                # plate have to share it, and the step's effect has to land in the object that is written back)
                 pv = state.env.get(key)
                 if pv is not None and _reads_current(pv):
                     verdicts.append('CURRENT')
@@ -230,6 +232,46 @@ def writeback_origin(ctx, rule):
                    why='the updated object is stored under another name: one declared object is lost, another overwritten',
                    key=f"write-back name mismatch in {op}")
 
+
+
+def operands_written_back(ctx, rule, only=None):
+    """Completeness of the write-back: every current object an operation of bake hands back in updated form (both sides
+    of a transfer, the stock of create_solution_from) is stored into self.results in that branch."""
+    model = ctx.model
+    bake = model.func('Recipe.bake')
+    ff = ctx.flow('Recipe.bake')
+    branches = bake_branches(ctx)
+    n = 0
+    for op, (body, node) in sorted(branches.items()):
+        if only is not None and op not in only:
+            continue
+        stores = [s for s in ff.stores if s[2] and s[2].startswith('self.results[') and _inside(s[0], node)]
+        stored = []
+        for stmt, target, key, value, before, rt in stores:
+            src = _result_source(value)
+            if src is not None:
+                stored.append((call_name(src[0])[1], src[1]))
+        seen_calls = set()
+        for c, st_, b in ff.calls:
+            raw = c.orig if hasattr(c, 'orig') else c
+            if not (_is_operation(raw) and _inside(st_, node)) or id(raw) in seen_calls:
+                continue
+            seen_calls.add(id(raw))
+            name = call_name(c)[1]
+            if name not in ('transfer', 'create_solution_from'):
+                continue
+            want = (0, 1) if name == 'transfer' else (0,)
+            for idx in want:
+                if idx >= len(c.args) or _origin_key(c.args[idx], b, ff) is None:
+                    continue
+                n += 1
+                ok = (name, idx) in stored
+                ctx.ob(rule, bake, getattr(st_, 'lineno', node.lineno),
+                       f"`{op}` branch: result {idx} of `{name}` is stored back into self.results", ok,
+                       fact=f"results of {name} stored: {sorted(i for nm, i in stored if nm == name)}",
+                       why='the updated source / stock is dropped: the recipe keeps the object as it was before the step '
+                           '(material is duplicated)', key=f"result {idx} of {name} not written back in {op}")
+    return n
 
 
 def _result_source(value):
@@ -352,7 +394,8 @@ def _reads_current(v):
     return isinstance(v0, ast.Subscript) and path_from_param(v0.value) == ('self', ['results'])
 
 
-def run(ctx):
+def current_operands(ctx, rule, only=None):
+    """Every Container / Plate / slice operand of an operation call in bake is the current object."""
     model = ctx.model
     bake = model.func('Recipe.bake')
     ff = ctx.flow('Recipe.bake')
@@ -361,6 +404,8 @@ def run(ctx):
     # ---------------------------------------------------------------- R1 current-operand rule
     nops = 0
     for op, (body, node) in sorted(branches.items()):
+        if only is not None and op not in only:
+            continue
         anns = optypes[op][0]
         calls = [(c, s, b) for c, s, b in ff.calls if _is_operation(c.orig if hasattr(c, 'orig') else c) and _inside(s, node)]
         for c, s, b in calls:
@@ -377,10 +422,21 @@ def run(ctx):
                     stale.append(show(a, 30))
                 elif v == 'CURRENT':
                     cur += 1
-            ctx.ob('C08.R1', bake, s.lineno, f"`{op}` branch: operands of `{unparse(raw, 50)}` are the current state", not stale,
+            ctx.ob(rule, bake, s.lineno, f"`{op}` branch: operands of `{unparse(raw, 50)}` are the current state", not stale,
                    fact=f"{cur} current operand(s) (from self.results), stale: {stale}",
                    why=f"{stale} is the object given when the step was declared, not the state produced by the earlier "
                        f"steps: the step does not see their effects", key=f"stale operand in {op}")
+    return nops
+
+
+def run(ctx):
+    model = ctx.model
+    bake = model.func('Recipe.bake')
+    ff = ctx.flow('Recipe.bake')
+    branches = bake_branches(ctx)
+    optypes = operand_types(ctx)
+    # ---------------------------------------------------------------- R1 current-operand rule
+    nops = current_operands(ctx, 'C08.R1')
     floor(ctx, 'operation calls in bake', nops, 8)
     stale_state_reads(ctx, 'C08.R1')
     # ---------------------------------------------------------------- R2 write-back by name
@@ -412,6 +468,7 @@ def run(ctx):
                    why='the result is stored under a name that was never checked as declared: an undeclared object '
                        'silently enters the results', key=f"result key from operand in {op}")
     writeback_origin(ctx, 'C08.R2')
+    operands_written_back(ctx, 'C08.R2')
 
     # ---------------------------------------------------------------- R3 no effect before bake
     eff = {k: {a.rstrip('*') for a in v} for k, v in receiver_effects(model).items()}
